@@ -8,7 +8,8 @@ from spec import seqsem, pddl3
 
 def signature(label, exc=None, pr=None):
     if exc is not None:
-        return f"{label.split('+')[0]}:{type(exc).__name__}"
+        comp = label.split('+')[0]
+        return f"{comp}:{type(exc).__name__}"
     return "unclassified"
 
 
@@ -49,6 +50,33 @@ def plan_tags(pr, plan):
     return ",".join(sorted(tags)) or "plain"
 
 
+def quantifier_sites(cp):
+    """where quantifiers occur in a problem (to key kind findings to the construct that carries them)"""
+    sites = set()
+
+    def has_q(e):
+        return any(x.is_exists() or x.is_forall() for x in _subexps(e))
+    for tc in cp.trajectory_constraints:
+        if has_q(tc):
+            sites.add("trajectory_constraints")
+    for g in cp.goals:
+        if has_q(g):
+            sites.add("goals")
+    for gl in getattr(cp, "timed_goals", {}).values():
+        if any(has_q(g) for g in gl):
+            sites.add("timed_goals")
+    for a in cp.actions:
+        conds = list(getattr(a, "preconditions", []))
+        if hasattr(a, "conditions"):
+            conds += [c for cl in a.conditions.values() for c in cl]
+        effs = getattr(a, "effects", [])
+        if isinstance(effs, dict):
+            effs = [e for el in effs.values() for e in el]
+        if any(has_q(c) for c in conds) or any(has_q(e.condition) or has_q(e.value) for e in effs):
+            sites.add("actions")
+    return "+".join(sorted(sites)) or "nowhere"
+
+
 def wellformed(cp):
     """independent well-formedness check of a compiled problem: unique names, declared references"""
     bad = []
@@ -78,7 +106,10 @@ def wellformed(cp):
         ps = set(a.parameters)
         for c in getattr(a, "preconditions", []):
             check_exp(c, f"action {a.name} precondition", ps)
-        for e in getattr(a, "effects", []):
+        effs = getattr(a, "effects", [])
+        if isinstance(effs, dict):
+            effs = [e for el in effs.values() for e in el]
+        for e in effs:
             for x in (e.fluent, e.value, e.condition):
                 check_exp(x, f"action {a.name} effect", ps)
     for g in cp.goals:
@@ -106,7 +137,7 @@ def run(tier, seed, want):
                 if "C08" in want:
                     res["C08"]["evaluations"] += 1
                     res["C08"]["failures"].append({"what": f"{label} seed {s}: compile raised {type(e).__name__}: {' '.join(str(e)[:120].split())} "
-                                                           f"[{signature(label, e)}]", "concrete": desc, "observed": repr(e)})
+                                                           f"[{cks[0].name}:{type(e).__name__}]", "concrete": desc, "observed": repr(e)})
                 continue
             if results is None:
                 continue
@@ -131,16 +162,23 @@ def run(tier, seed, want):
                 r9["nontrivial"].add((label, s))
                 if not (cp.kind <= declared):
                     extra = sorted(set(cp.kind.features) - set(declared.features))
+                    where = f"@{quantifier_sites(cp)}" if any(x in extra for x in ("EXISTENTIAL_CONDITIONS", "UNIVERSAL_CONDITIONS")) else ""
                     r9["failures"].append({"what": f"{label} seed {s}: compiled kind has features {extra} outside the declared resulting kind "
-                                                   f"[{label.split('+')[0]}:{','.join(extra)}]", "concrete": desc, "observed": extra})
+                                                   f"[{cks[0].name}:{','.join(extra)}{where}]", "concrete": desc, "observed": extra})
                 elif len(r9["samples"]) < 3:
                     r9["samples"].append({"compilers": label, "problem": pr.name, "compiled_kind": sorted(cp.kind.features)[:8]})
             if not ({"C06", "C07"} & set(want)):
                 continue
             # compilers that may add a final goal-achieving action: bound k+1
+            if label.startswith("crafted:") and any(not hasattr(a, "preconditions") for a in pr.actions):
+                continue        # temporal crafted problems: only the compile-level checks (C08, C09) apply
             extra_len = 1 if any(ck in (RC.CK.TRAJECTORY_CONSTRAINTS_REMOVING, RC.CK.DISJUNCTIVE_CONDITIONS_REMOVING) for ck in cks) else 0
+            if label.startswith("crafted:"):
+                maxlen_, cap_ = 3, 400       # crafted problems are tiny: explore them deeper
+            else:
+                maxlen_, cap_ = maxlen, cap
             try:
-                cplans = RC.valid_plans(cp, maxlen + extra_len, cap, rng)
+                cplans = RC.valid_plans(cp, maxlen_ + extra_len, cap_, rng)
             except Exception as e:  # noqa: reference semantics does not cover something in the compiled problem
                 continue
             mapped = set()
@@ -165,24 +203,24 @@ def run(tier, seed, want):
                         r6["nontrivial"].add((label, s, tuple(RC.pname(cplan))))
                     if not ok:
                         r6["failures"].append({"what": f"{label} seed {s}: a plan valid for the compiled problem maps back to an invalid plan "
-                                                       f"[{label.split('+')[0]}:{plan_tags(pr, oplan)}]", "concrete": desc | {"compiled_plan": RC.pname(cplan), "mapped_back": RC.pname(oplan), "compiled": str(cp)},
+                                                       f"[{cks[0].name}:{plan_tags(pr, oplan)}]", "concrete": desc | {"compiled_plan": RC.pname(cplan), "mapped_back": RC.pname(oplan), "compiled": str(cp)},
                                                "observed": RC.pname(oplan)})
                     elif len(r6["samples"]) < 3 and cplan:
                         r6["samples"].append({"compilers": label, "compiled_plan": RC.pname(cplan), "mapped_back": RC.pname(oplan)})
-            if "C07" in want and len(cplans) < cap:
+            if "C07" in want and len(cplans) < cap_:
                 r7 = res["C07"]
                 try:
-                    oplans = RC.valid_plans(pr, maxlen, cap, rng)
+                    oplans = RC.valid_plans(pr, maxlen_, cap_, rng)
                 except Exception:  # noqa
                     oplans = []
-                if len(oplans) < cap:
+                if len(oplans) < cap_:
                     for oplan in oplans:
                         r7["evaluations"] += 1
                         if oplan:
                             r7["nontrivial"].add((label, s, tuple(RC.pname(oplan))))
                         if tuple(RC.pname(oplan)) not in mapped:
                             r7["failures"].append({"what": f"{label} seed {s}: a valid plan of the original problem has no counterpart of length <= "
-                                                           f"{maxlen + extra_len} in the compiled problem [{label.split('+')[0]}:{plan_tags(pr, oplan)}]",
+                                                           f"{maxlen_ + extra_len} in the compiled problem [{cks[0].name}:{plan_tags(pr, oplan)}]",
                                                    "concrete": desc | {"plan": RC.pname(oplan), "compiled": str(cp)}, "observed": sorted(mapped)[:5]})
                         elif len(r7["samples"]) < 3 and oplan:
                             r7["samples"].append({"compilers": label, "plan": RC.pname(oplan)})
